@@ -70,7 +70,8 @@ def main():
             dst = os.path.join(VERIF, 'seeded', name)
             os.makedirs(dst, exist_ok=True)
             for f in ('patch.diff', 'demo.py', 'notes.md'):
-                if os.path.exists(os.path.join(src, f)):
+                if os.path.exists(os.path.join(src, f)) and \
+                        os.path.abspath(src) != os.path.abspath(dst):
                     shutil.copy(os.path.join(src, f), os.path.join(dst, f))
             keep = dict(meta)
             prev = {}
@@ -81,6 +82,10 @@ def main():
                 hist.append(dict(verif_commit=prev.get('verif_commit'),
                                  detected={k: v['detected'] for k, v in prev['checks'].items()}))
             keep['history'] = hist
+            if 'tests_exit' not in keep and 'tests_exit' in prev:
+                keep['tests_exit'] = prev['tests_exit']
+                keep['tests_output'] = prev.get('tests_output')
+                keep['tests_note'] = 'test suite result carried over from the first evaluation of this patch'
             keep['needs_to_manifest'] = open(os.path.join(src, 'notes.md')).read()[:1500] \
                 if os.path.exists(os.path.join(src, 'notes.md')) else ''
             keep['ran'] = ['demo.py on clean worktree (exit %d)' % rc0, 'git apply patch.diff; demo.py (exit %d)' % rc1,
